@@ -80,3 +80,53 @@ Example C06_example_bytes :
   query_ok (flat (queryEscape [60; 47; 115; 62; 255])) = true /\
   js_string_ok [60; 47; 115; 62] = false /\ css_string_ok [92] = false /\ html_text_ok [38; 97] = false.
 Proof. repeat split; vm_compute; reflexivity. Qed.
+
+(* ------------------------------------------------------------------------
+   Layer (B): the context the template lexer gives to a show is the state of
+   an HTML tokenizer at that point. *)
+From Verif Require Import Facts_lexer LexBase LexCodeM LexerM LexTables RefTok EndTag_proofs.
+
+(* Full statement of layer (B) on the fragment of the reference tokenizer
+   RefTok (text, tags with quoted attributes, untyped script and style
+   elements with string literals and the end tag rule): whenever the reference
+   stays inside the fragment, the lexer model gives to every show the context
+   that abstracts the reference state (ctx_of).  Stated, not proved: it is
+   evaluated by the extracted model on every correspondence input (ctxsim). *)
+Definition lexer_ctx_sim_statement : Prop := forall src : bytes, ctx_sim_ok src = true.
+
+(* proved sub-lemmas, over the generated facts of isEndScript / isEndStyle:
+   the end tag test of the lexer accepts exactly "</", the element name in any
+   letter case and one of tab, LF, CR, space, ">" *)
+Theorem C06_end_script_exact_partial : forall s : bytes, isEndScript s = end_tag_spec s_script code_term s.
+Proof.
+  intros s. unfold isEndScript.
+  exact (end_tag_exact gen_isEndScript_sets s_script code_term gen_isEndScript_len s script_sets_agree eq_refl eq_refl eq_refl eq_refl).
+Qed.
+Print Assumptions C06_end_script_exact_partial.
+
+Theorem C06_end_style_exact_partial : forall s : bytes, isEndStyle s = end_tag_spec s_style code_term s.
+Proof.
+  intros s. unfold isEndStyle.
+  exact (end_tag_exact gen_isEndStyle_sets s_style code_term gen_isEndStyle_len s style_sets_agree eq_refl eq_refl eq_refl eq_refl).
+Qed.
+Print Assumptions C06_end_style_exact_partial.
+
+(* every end tag the lexer accepts is one for a browser (tab, LF, FF, CR, space, "/", ">") ... *)
+Theorem C06_end_tag_sound_partial :
+  forall s : bytes, isEndScript s = true -> end_tag_spec s_script browser_term s = true.
+Proof.
+  intros s. rewrite C06_end_script_exact_partial. apply end_tag_spec_mono.
+  intros t. unfold mem, code_term, browser_term. simpl. intros H.
+  repeat (apply orb_prop in H; destruct H as [H|H]); try discriminate; rewrite H; simpl; rewrite ?orb_true_r; reflexivity.
+Qed.
+
+(* ... but not conversely: "/" and FF end the tag name for a browser only *)
+Theorem C06_end_tag_browser_set_refuted :
+  exists s : bytes, end_tag_spec s_script browser_term s = true /\ isEndScript s = false.
+Proof. exists [60; 47; 115; 99; 114; 105; 112; 116; 47; 62]. split; vm_compute; reflexivity. Qed.
+
+Example C06_layerB_example :
+  ctx_sim_ok [60;112;32;116;105;116;108;101;61;34;123;123;32;115;32;125;125;34;62;120;60;115;99;114;105;112;116;62;118;97;114;32;97;32;61;32;34;123;123;32;115;32;125;125;34;59;60;47;115;99;114;105;112;116;32;62;123;123;32;115;32;125;125] = true
+  /\ ref_contexts [60;112;32;116;105;116;108;101;61;34;123;123;32;115;32;125;125;34;62;120;60;115;99;114;105;112;116;62;118;97;114;32;97;32;61;32;34;123;123;32;115;32;125;125;34;59;60;47;115;99;114;105;112;116;32;62;123;123;32;115;32;125;125]
+     = Some [(10, gen_ContextQuotedAttr); (37, gen_ContextJSString); (56, gen_ContextHTML)].
+Proof. vm_compute. split; reflexivity. Qed.
